@@ -877,6 +877,8 @@ class Interp:
         hole = list(s.hole_cards[i]) if i is not None else []
         unknown = not cards_known(hole)
         m = a % 6
+        if self.cfg.get('auto_show') and not unknown:
+            return ()
         if unknown:
             # the hand must be made known (or mucked): C07's stated domain
             if m == 4 and self.muck_allowed():
